@@ -1,6 +1,899 @@
-//! C08 — not built yet.
-use vcommon::Args;
+//! C08 - dynamic values obey equality, ordering, hashing and conversion laws.
+//!
+//! Space: the deduplicated universe of `Value`s built from `rv::values` over `rv::all_types(2, maybe)`
+//! plus every dict type with a basic key over four value types, two-field structs and a few nested
+//! containers (thorough: a fixed-stride subset of the values of all 3-node types as well), with NaN
+//! (both signs), +-0.0, infinities, borrowed and owned fds.
+//!
+//! Laws (only what the property states):
+//!   eq-reflexive / eq-symmetric / eq-transitive                   `==` is an equivalence
+//!   cmp-antisymmetric / cmp-transitive / cmp-consistent-eq         `Ord::cmp` is a total order, Equal <=> ==
+//!   hash-consistent-eq                                             a == b => hash a == hash b
+//!   clone-preserves-{eq,signature}, owned-preserves-{eq,signature} try_clone, clone, try_to_owned,
+//!                                                                  try_into_owned, OwnedValue -> Value
+//!   signature-is-encoded                                           value_signature() is what to_bytes wrote
+//!   std-roundtrip                                                  T -> Value -> T is the identity
 
-pub fn main(_args: &Args) -> i32 {
-    vcommon::machinery_failure("C08: check not built yet")
+use std::{
+    cmp::Ordering,
+    collections::{BTreeMap, HashMap},
+    hash::{Hash, Hasher},
+    os::fd::AsFd,
+};
+
+use serde_json::json;
+use vcommon::{hash64, Args, Report, Tier, Violation};
+use zvariant::{serialized::Context, to_bytes, ObjectPath, OwnedValue, Signature, Str, Value, LE};
+
+use crate::rv::{self, from_value, rv_eq, to_value, Domain, FdTable, Ty, RV};
+
+// ---------------------------------------------------------------------------------------------
+// universe
+// ---------------------------------------------------------------------------------------------
+
+fn extra_types() -> Vec<Ty> {
+    let b = |t: &Ty| Box::new(t.clone());
+    let mut out = vec![];
+    let vals = [Ty::Y, Ty::D, Ty::S, Ty::V];
+    for k in rv::LEAVES.iter().filter(|l| l.is_basic()) {
+        for v in &vals {
+            out.push(Ty::Dict(b(k), b(v)));
+        }
+    }
+    let fs = [Ty::Y, Ty::D, Ty::S, Ty::G];
+    for x in &fs {
+        for y in &fs {
+            out.push(Ty::Struct(vec![x.clone(), y.clone()]));
+        }
+    }
+    out.push(Ty::Array(b(&Ty::Array(b(&Ty::D)))));
+    out.push(Ty::Array(b(&Ty::Struct(vec![Ty::D]))));
+    out.push(Ty::Array(b(&Ty::Struct(vec![Ty::G]))));
+    out.push(Ty::Struct(vec![Ty::Array(b(&Ty::D))]));
+    out.push(Ty::Struct(vec![Ty::Struct(vec![Ty::D])]));
+    out.push(Ty::Dict(b(&Ty::S), b(&Ty::Array(b(&Ty::D)))));
+    out.push(Ty::Maybe(b(&Ty::Array(b(&Ty::D)))));
+    out.push(Ty::Maybe(b(&Ty::Maybe(b(&Ty::D)))));
+    out.push(Ty::Array(b(&Ty::Maybe(b(&Ty::D)))));
+    out
+}
+
+fn extra_values() -> Vec<RV> {
+    let nan = f64::NAN.to_bits();
+    let neg_nan = (-f64::NAN).to_bits();
+    let ninf = f64::NEG_INFINITY.to_bits();
+    vec![
+        RV::D(neg_nan),
+        RV::D(ninf),
+        RV::D((-1.5f64).to_bits()),
+        RV::V(Box::new((Ty::D, RV::D(nan)))),
+        RV::V(Box::new((Ty::D, RV::D(0.0f64.to_bits())))),
+        RV::V(Box::new((Ty::D, RV::D((-0.0f64).to_bits())))),
+        RV::Array(Ty::D, vec![RV::D(neg_nan)]),
+        RV::Array(Ty::D, vec![RV::D(nan), RV::D(nan)]),
+        RV::Struct(vec![RV::D(nan), RV::Y(1)]),
+        RV::Struct(vec![RV::D(nan), RV::Y(255)]),
+        RV::Struct(vec![RV::Y(1), RV::D(nan)]),
+        RV::G("(ii)".into()),
+        RV::G("ii".into()),
+        RV::G("s".into()),
+        RV::G("as".into()),
+        RV::G("ai".into()),
+        RV::G("a{sv}a{sv}".into()),
+    ]
+}
+
+struct Item<'a> {
+    /// how the value was built
+    rv: RV,
+    /// what the built value holds, read back through the public accessors (differs from `rv` when
+    /// e.g. `Dict::append` merged two keys)
+    held: RV,
+    sig: String,
+    val: Value<'a>,
+    /// how the fd inside (if any) is held: "", "borrowed", "owned"
+    fd_mode: &'static str,
+}
+
+fn contains(rv: &RV, pred: &dyn Fn(&RV) -> bool) -> bool {
+    if pred(rv) {
+        return true;
+    }
+    match rv {
+        RV::V(b) => contains(&b.1, pred),
+        RV::Array(_, xs) | RV::Struct(xs) => xs.iter().any(|x| contains(x, pred)),
+        RV::Dict(_, _, xs) => xs.iter().any(|(k, v)| contains(k, pred) || contains(v, pred)),
+        RV::Maybe(_, Some(x)) => contains(x, pred),
+        _ => false,
+    }
+}
+
+fn has_nan(rv: &RV) -> bool {
+    contains(rv, &|r| matches!(r, RV::D(b) if f64::from_bits(*b).is_nan()))
+}
+fn has_fd(rv: &RV) -> bool {
+    contains(rv, &|r| matches!(r, RV::H(_)))
+}
+fn has_float(rv: &RV) -> bool {
+    contains(rv, &|r| matches!(r, RV::D(_)))
+}
+fn has_sigval(rv: &RV) -> bool {
+    contains(rv, &|r| matches!(r, RV::G(_)))
+}
+
+/// The content of a value with every piece of *signature* information removed: signature-typed
+/// leaves are blanked and the element/key/value/payload type annotations of containers are dropped.
+/// Two different values with the same `erase` differ only in signatures (their own or held ones).
+fn erase(rv: &RV) -> String {
+    match rv {
+        RV::G(_) => "g".into(),
+        RV::V(b) => format!("<{}>", erase(&b.1)),
+        RV::Array(_, xs) => format!("[{}]", xs.iter().map(erase).collect::<Vec<_>>().join(",")),
+        RV::Struct(xs) => format!("({})", xs.iter().map(erase).collect::<Vec<_>>().join(",")),
+        RV::Dict(_, _, xs) => format!("{{{}}}", xs.iter().map(|(a, b)| format!("{}:{}", erase(a), erase(b))).collect::<Vec<_>>().join(",")),
+        RV::Maybe(_, Some(x)) => format!("just {}", erase(x)),
+        RV::Maybe(_, None) => "nothing".into(),
+        // +0.0 and -0.0 are == as f64
+        RV::D(b) if f64::from_bits(*b) == 0.0 => "0.0d".into(),
+        other => other.show(),
+    }
+}
+
+fn feats(v: Violation, items: &[&Item<'_>]) -> Violation {
+    let nan = items.iter().any(|i| has_nan(&i.held));
+    let fd = items.iter().any(|i| has_fd(&i.held));
+    // features are computed from what the values actually hold (`held`), not from how they were built
+    let only_sig = items.len() == 2
+        && (!rv_eq(&items[0].held, &items[1].held) || items[0].sig != items[1].sig)
+        && erase(&items[0].held) == erase(&items[1].held);
+    v.feat("has_nan", nan).feat("has_fd", fd).feat("differ_only_in_signatures", only_sig)
+}
+
+/// Identify an fd by the file it refers to.
+fn fd_by_inode(fds: &FdTable, raw: i32) -> u32 {
+    let ino = {
+        let mut st: libc::stat = unsafe { std::mem::zeroed() };
+        unsafe { libc::fstat(raw, &mut st) };
+        st.st_ino as u64
+    };
+    fds.fds.iter().position(|f| FdTable::inode(f) == ino).map(|p| p as u32).unwrap_or(u32::MAX)
+}
+
+fn std_hash(v: &Value<'_>) -> u64 {
+    let mut h = std::collections::hash_map::DefaultHasher::new();
+    v.hash(&mut h);
+    h.finish()
+}
+
+fn universe<'a>(tier: Tier, fds: &'a FdTable, capped: &mut bool, report: &Report) -> Vec<Item<'a>> {
+    let maybe = cfg!(feature = "gvariant");
+    let dom = Domain::standard(12);
+    let mut types = rv::all_types(2, maybe);
+    types.extend(extra_types().into_iter().filter(|t| maybe || !t.contains(&|x| matches!(x, Ty::Maybe(_)))));
+    let mut rvs: Vec<RV> = vec![];
+    for t in &types {
+        rvs.extend(rv::values(t, &dom, capped));
+    }
+    rvs.extend(extra_values());
+    if tier == Tier::Thorough {
+        // a fixed-stride subset of the values of all 3-node types
+        let mut more = vec![];
+        for t in rv::all_types(3, maybe).iter().filter(|t| t.nodes() == 3) {
+            more.extend(rv::values(t, &Domain::standard(6), capped));
+        }
+        let want = 2400usize;
+        let stride = (more.len() / want).max(1);
+        report.set("thorough_three_node_values", json!({"available": more.len(), "stride": stride}));
+        rvs.extend(more.into_iter().step_by(stride));
+    }
+    let mut seen = std::collections::BTreeSet::new();
+    let mut out = vec![];
+    for r in rvs {
+        let sig = r.ty().sig();
+        if !seen.insert(format!("{sig}:{}", r.show())) {
+            continue;
+        }
+        match to_value(&r, fds) {
+            Ok(val) => {
+                let fd_mode = if has_fd(&r) { "borrowed" } else { "" };
+                let held = from_value(&val, &|raw| fd_by_inode(fds, raw)).unwrap_or_else(|e| vcommon::machinery_failure(&format!("C08: cannot read back {}: {e}", r.show())));
+                out.push(Item { rv: r, held, sig, val, fd_mode });
+            }
+            Err(e) => vcommon::machinery_failure(&format!("C08: cannot build {}: {e}", r.show())),
+        }
+    }
+    // owned fds (dups of the table's files): the same RV as the borrowed ones, held differently
+    for i in 0..fds.fds.len() as u32 {
+        let dup = fds.fds[i as usize].as_fd().try_clone_to_owned().expect("dup");
+        out.push(Item { rv: RV::H(i), held: RV::H(i), sig: "h".into(), val: Value::Fd(zvariant::Fd::from(dup)), fd_mode: "owned" });
+    }
+    out
+}
+
+// ---------------------------------------------------------------------------------------------
+// unary laws
+// ---------------------------------------------------------------------------------------------
+
+fn encoded_signature(v: &Value<'_>, gvariant: bool) -> Result<String, String> {
+    if gvariant {
+        #[cfg(feature = "gvariant")]
+        {
+            let d = to_bytes(Context::new_gvariant(LE, 0), v).map_err(|e| e.to_string())?;
+            let b = d.bytes();
+            // GVariant variant: value bytes, NUL, signature
+            let nul = b.iter().rposition(|c| *c == 0).ok_or("no NUL separator in the variant encoding")?;
+            return String::from_utf8(b[nul + 1..].to_vec()).map_err(|e| e.to_string());
+        }
+        #[allow(unreachable_code)]
+        Err("gvariant disabled".into())
+    } else {
+        let d = to_bytes(Context::new_dbus(LE, 0), v).map_err(|e| e.to_string())?;
+        let b = d.bytes();
+        // D-Bus variant: u8 length, signature, NUL, padded value
+        let n = *b.first().ok_or("empty encoding")? as usize;
+        if b.len() < n + 2 || b[n + 1] != 0 {
+            return Err("malformed variant header".into());
+        }
+        String::from_utf8(b[1..1 + n].to_vec()).map_err(|e| e.to_string())
+    }
+}
+
+fn unary(idx: usize, it: &Item<'_>, fds: &FdTable, out: &mut Vec<Violation>, evals: &mut u64) {
+    let replay = json!({"values": [idx], "shown": [show(it)]});
+    let fd_index = |raw: i32| -> u32 { fd_by_inode(fds, raw) };
+    let mut fail = |clause: &str, op: &str, detail: String| {
+        out.push(
+            feats(Violation::new(clause, format!("{}:{} [{}] {detail}", it.sig, it.rv.show(), op), replay.clone()), &[it])
+                .feat("op", op)
+                .feat("fd_held", it.fd_mode),
+        );
+    };
+    let v = &it.val;
+    let r = vcommon::catch(|| {
+        let mut fails: Vec<(&'static str, &'static str, String)> = vec![];
+        let reflexive = v == v;
+        if !reflexive {
+            fails.push(("eq-reflexive", "==", "v == v is false".into()));
+        }
+        // harness-level sameness, usable when == is not reflexive
+        let same = |c: &Value<'_>| -> bool {
+            if reflexive {
+                c == v && v == c
+            } else {
+                from_value(c, &fd_index).map(|rc| rv_eq(&rc, &it.held)).unwrap_or(false)
+            }
+        };
+        let how = if reflexive { "is != the original" } else { "does not hold the original's content (== is unusable here; compared through the harness tree)" };
+        let vsig = v.value_signature().to_string();
+        let mut copy = |op: &'static str, clause_eq: &'static str, clause_sig: &'static str, c: Result<Value<'_>, String>| match c {
+            Ok(c) => {
+                if !same(&c) {
+                    fails.push((clause_eq, op, format!("the copy {how}")));
+                }
+                if c.value_signature() != v.value_signature() || c.value_signature().to_string() != vsig {
+                    fails.push((clause_sig, op, format!("copy's value_signature {} != {}", c.value_signature(), vsig)));
+                }
+            }
+            Err(e) => fails.push((clause_eq, op, format!("failed: {e}"))),
+        };
+        copy("try_clone", "clone-preserves-eq", "clone-preserves-signature", v.try_clone().map_err(|e| e.to_string()));
+        copy("clone", "clone-preserves-eq", "clone-preserves-signature", Ok(v.clone()));
+        copy("Value::try_from(&Value)", "clone-preserves-eq", "clone-preserves-signature", Value::try_from(v).map_err(|e| e.to_string()));
+        copy(
+            "try_to_owned",
+            "owned-preserves-eq",
+            "owned-preserves-signature",
+            v.try_to_owned().map(Value::from).map_err(|e| e.to_string()),
+        );
+        copy(
+            "try_into_owned",
+            "owned-preserves-eq",
+            "owned-preserves-signature",
+            v.try_clone().and_then(|c| c.try_into_owned()).map(Value::from).map_err(|e| e.to_string()),
+        );
+        copy(
+            "OwnedValue::try_from(&Value)",
+            "owned-preserves-eq",
+            "owned-preserves-signature",
+            OwnedValue::try_from(v).map(Value::from).map_err(|e| e.to_string()),
+        );
+        copy(
+            "OwnedValue::try_clone",
+            "owned-preserves-eq",
+            "owned-preserves-signature",
+            v.try_to_owned().and_then(|o| o.try_clone()).map(Value::from).map_err(|e| e.to_string()),
+        );
+        // the OwnedValue itself (through Deref) against the original
+        match v.try_to_owned() {
+            Ok(o) => {
+                if reflexive && !(*o == *v) {
+                    fails.push(("owned-preserves-eq", "*OwnedValue == Value", "the owned value is != the original".into()));
+                }
+                if o.value_signature().to_string() != vsig {
+                    fails.push(("owned-preserves-signature", "OwnedValue::value_signature", format!("{} != {vsig}", o.value_signature())));
+                }
+            }
+            Err(e) => fails.push(("owned-preserves-eq", "try_to_owned", format!("failed: {e}"))),
+        }
+        // reported signature = harness type = what the encoders write
+        if vsig != it.sig {
+            fails.push(("signature-is-encoded", "value_signature", format!("value_signature() = {vsig}, the value was built as {}", it.sig)));
+        }
+        let maybe_inside = it.rv.ty().contains(&|t| matches!(t, Ty::Maybe(_)));
+        if !maybe_inside {
+            match encoded_signature(v, false) {
+                Ok(s) if s == vsig => {}
+                Ok(s) => fails.push(("signature-is-encoded", "to_bytes(dbus)", format!("encoded with signature {s:?}, value_signature() = {vsig:?}"))),
+                Err(e) => fails.push(("signature-is-encoded", "to_bytes(dbus)", format!("encoding failed: {e}"))),
+            }
+        }
+        if cfg!(feature = "gvariant") {
+            match encoded_signature(v, true) {
+                Ok(s) if s == vsig => {}
+                Ok(s) => fails.push(("signature-is-encoded", "to_bytes(gvariant)", format!("encoded with signature {s:?}, value_signature() = {vsig:?}"))),
+                Err(e) => fails.push(("signature-is-encoded", "to_bytes(gvariant)", format!("encoding failed: {e}"))),
+            }
+        }
+        fails
+    });
+    *evals += 12;
+    match r {
+        Ok(fails) => {
+            for (c, op, d) in fails {
+                fail(c, op, d);
+            }
+        }
+        Err(m) => fail("no-panic", "unary laws", format!("panicked: {m} at {}", vcommon::last_panic_location())),
+    }
+}
+
+// ---------------------------------------------------------------------------------------------
+// std-type conversion bank
+// ---------------------------------------------------------------------------------------------
+
+struct BankFail {
+    ty: String,
+    route: &'static str,
+    shown: String,
+    detail: String,
+}
+
+trait Same {
+    fn same(&self, other: &Self) -> bool;
+}
+macro_rules! same_eq { ($($t:ty),*) => { $(impl Same for $t { fn same(&self, o: &Self) -> bool { self == o } })* } }
+same_eq!(u8, bool, i16, u16, i32, u32, i64, u64, String, Signature);
+impl Same for f64 {
+    fn same(&self, o: &Self) -> bool {
+        self.to_bits() == o.to_bits()
+    }
+}
+impl<T: Same> Same for Vec<T> {
+    fn same(&self, o: &Self) -> bool {
+        self.len() == o.len() && self.iter().zip(o).all(|(a, b)| a.same(b))
+    }
+}
+impl<T: Same> Same for Option<T> {
+    fn same(&self, o: &Self) -> bool {
+        match (self, o) {
+            (None, None) => true,
+            (Some(a), Some(b)) => a.same(b),
+            _ => false,
+        }
+    }
+}
+impl<K: Eq + Hash, V: Same> Same for HashMap<K, V> {
+    fn same(&self, o: &Self) -> bool {
+        self.len() == o.len() && self.iter().all(|(k, v)| o.get(k).map(|w| v.same(w)).unwrap_or(false))
+    }
+}
+impl<A: Same> Same for (A,) {
+    fn same(&self, o: &Self) -> bool {
+        self.0.same(&o.0)
+    }
+}
+impl<A: Same, B: Same> Same for (A, B) {
+    fn same(&self, o: &Self) -> bool {
+        self.0.same(&o.0) && self.1.same(&o.1)
+    }
+}
+impl<A: Same, B: Same, C: Same> Same for (A, B, C) {
+    fn same(&self, o: &Self) -> bool {
+        self.0.same(&o.0) && self.1.same(&o.1) && self.2.same(&o.2)
+    }
+}
+
+fn u8s() -> Vec<u8> {
+    vec![0, 1, 255]
+}
+fn f64s() -> Vec<f64> {
+    vec![0.0, -0.0, 1.5, f64::NAN, f64::INFINITY]
+}
+fn strings() -> Vec<String> {
+    vec!["".into(), "a".into(), "é/€".into()]
+}
+fn lists<T: Clone>(xs: &[T]) -> Vec<Vec<T>> {
+    let mut out = vec![vec![]];
+    for x in xs {
+        out.push(vec![x.clone()]);
+    }
+    for (i, x) in xs.iter().enumerate() {
+        out.push(vec![x.clone(), xs[(i + 1) % xs.len()].clone()]);
+    }
+    out
+}
+fn maps<K: Clone + Eq + Hash, V: Clone>(ks: &[K], vs: &[V]) -> Vec<HashMap<K, V>> {
+    let mut out = vec![HashMap::new()];
+    for (i, k) in ks.iter().enumerate() {
+        out.push(HashMap::from([(k.clone(), vs[i % vs.len()].clone())]));
+    }
+    out.push(ks.iter().enumerate().map(|(i, k)| (k.clone(), vs[i % vs.len()].clone())).collect());
+    out
+}
+
+/// T -> Value -> T through `Value::from` + `T::try_from(Value)`, `Value::new` + `downcast`, and
+/// through an `OwnedValue`.
+macro_rules! bank_owned {
+    ($fails:ident, $evals:ident, $t:ty, $vals:expr) => {{
+        let vals: Vec<$t> = $vals;
+        for x in vals {
+            let shown = format!("{:?}", x);
+            let tn = stringify!($t);
+            let mut chk = |route: &'static str, r: Result<Result<$t, String>, String>| {
+                *$evals += 1;
+                match r {
+                    Ok(Ok(y)) if y.same(&x) => {}
+                    Ok(Ok(y)) => $fails.push(BankFail { ty: tn.into(), route, shown: shown.clone(), detail: format!("came back as {:?}", y) }),
+                    Ok(Err(e)) => $fails.push(BankFail { ty: tn.into(), route, shown: shown.clone(), detail: format!("conversion back failed: {e}") }),
+                    Err(m) => $fails.push(BankFail { ty: tn.into(), route, shown: shown.clone(), detail: format!("panicked: {m}") }),
+                }
+            };
+            chk("From + TryFrom<Value>", vcommon::catch(|| <$t>::try_from(Value::from(x.clone())).map_err(|e| e.to_string())));
+            chk("Value::new + downcast", vcommon::catch(|| Value::new(x.clone()).downcast::<$t>().map_err(|e| e.to_string())));
+            chk(
+                "via OwnedValue",
+                vcommon::catch(|| {
+                    let o = OwnedValue::try_from(Value::from(x.clone())).map_err(|e| e.to_string())?;
+                    <$t>::try_from(o).map_err(|e| e.to_string())
+                }),
+            );
+        }
+    }};
+}
+
+/// Option<T> -> Value::Maybe -> Option<T> (the way back is `Maybe::get`).
+#[cfg(feature = "gvariant")]
+macro_rules! bank_option {
+    ($fails:ident, $evals:ident, $t:ty, $vals:expr) => {{
+        let mut vals: Vec<Option<$t>> = vec![None];
+        vals.extend($vals.into_iter().map(Some));
+        for x in vals {
+            *$evals += 1;
+            let shown = format!("{:?}", x);
+            let r = vcommon::catch(|| -> Result<Option<$t>, String> {
+                let v = Value::from(x.clone());
+                match &v {
+                    Value::Maybe(m) => m.get::<$t>().map_err(|e| e.to_string()),
+                    other => Err(format!("Value::from(Option) is not a Maybe: {other:?}")),
+                }
+            });
+            let tn = concat!("Option<", stringify!($t), ">");
+            match r {
+                Ok(Ok(y)) if y.same(&x) => {}
+                Ok(Ok(y)) => $fails.push(BankFail { ty: tn.into(), route: "From + Maybe::get", shown, detail: format!("came back as {:?}", y) }),
+                Ok(Err(e)) => $fails.push(BankFail { ty: tn.into(), route: "From + Maybe::get", shown, detail: format!("conversion back failed: {e}") }),
+                Err(m) => $fails.push(BankFail { ty: tn.into(), route: "From + Maybe::get", shown, detail: format!("panicked: {m}") }),
+            }
+        }
+    }};
+}
+
+fn bank(fails: &mut Vec<BankFail>, evals: &mut u64) -> usize {
+    let mut n_types = 0;
+    macro_rules! b { ($t:ty, $v:expr) => {{ n_types += 1; bank_owned!(fails, evals, $t, $v); }} }
+    b!(u8, u8s());
+    b!(bool, vec![false, true]);
+    b!(i16, vec![0, 1, -1, i16::MIN, i16::MAX]);
+    b!(u16, vec![0, 1, u16::MAX]);
+    b!(i32, vec![0, 1, -1, i32::MIN, i32::MAX]);
+    b!(u32, vec![0, 1, u32::MAX]);
+    b!(i64, vec![0, 1, -1, i64::MIN, i64::MAX]);
+    b!(u64, vec![0, 1, u64::MAX]);
+    b!(f64, f64s());
+    b!(String, strings());
+    b!(Vec<u8>, lists(&u8s()));
+    b!(Vec<bool>, lists(&[false, true]));
+    b!(Vec<i32>, lists(&[0, -1, i32::MAX]));
+    b!(Vec<u64>, lists(&[0, u64::MAX]));
+    b!(Vec<f64>, lists(&f64s()));
+    b!(Vec<String>, lists(&strings()));
+    b!(Vec<Vec<u8>>, lists(&lists(&[0u8, 255])));
+    b!(Vec<Vec<String>>, lists(&lists(&strings()[..2])));
+    b!(HashMap<String, u32>, maps(&strings(), &[0u32, u32::MAX]));
+    b!(HashMap<u8, String>, maps(&u8s(), &strings()));
+    b!(HashMap<i64, f64>, maps(&[0i64, -1, i64::MAX], &f64s()));
+    b!(HashMap<String, Vec<u8>>, maps(&strings(), &lists(&[1u8, 2])));
+    b!(HashMap<u32, HashMap<String, u8>>, maps(&[0u32, 7], &maps(&strings(), &u8s())));
+    b!(HashMap<bool, i16>, maps(&[false, true], &[0i16, i16::MIN]));
+    b!(
+        HashMap<Signature, u8>,
+        maps(&["i", "s", "a{sv}"].map(|g| Signature::try_from(g).unwrap()), &u8s())
+    );
+    b!((u8,), u8s().into_iter().map(|x| (x,)).collect());
+    b!((u8, String), u8s().into_iter().zip(strings()).collect());
+    b!((i32, f64, bool), f64s().into_iter().enumerate().map(|(i, f)| (i as i32 - 2, f, i % 2 == 0)).collect());
+    b!(((u8, u8), String), strings().into_iter().map(|s| ((1u8, 255u8), s)).collect());
+    b!((Vec<u8>, HashMap<String, u32>), lists(&u8s()).into_iter().zip(maps(&strings(), &[1u32, 2]).into_iter().cycle()).collect());
+    b!((String, Vec<(u8, String)>), vec![("k".to_string(), vec![]), ("".to_string(), vec![(1u8, "a".to_string()), (2u8, "é/€".to_string())])]);
+    #[cfg(feature = "gvariant")]
+    {
+        macro_rules! o { ($t:ty, $v:expr) => {{ n_types += 1; bank_option!(fails, evals, $t, $v); }} }
+        o!(u8, u8s());
+        o!(i64, vec![0i64, -1, i64::MAX]);
+        o!(f64, f64s());
+        o!(String, strings());
+        o!(bool, vec![false, true]);
+    }
+    // borrowed / wrapper string-like types: the value comes back holding the same text
+    for s in strings() {
+        *evals += 3;
+        let r = vcommon::catch(|| {
+            let a = Str::try_from(Value::from(Str::from(s.as_str()))).map(|x| x.as_str() == s).unwrap_or(false);
+            let v = Value::from(s.as_str());
+            let b = <&str>::try_from(&v).map(|x| x == s).unwrap_or(false);
+            let c = String::try_from(&v).map(|x| x == s).unwrap_or(false);
+            (a, b, c)
+        });
+        if r != Ok((true, true, true)) {
+            fails.push(BankFail { ty: "Str/&str/String by reference".into(), route: "TryFrom<&Value>", shown: format!("{s:?}"), detail: format!("{r:?}") });
+        }
+    }
+    for p in ["/", "/a", "/a/b"] {
+        *evals += 1;
+        let r = vcommon::catch(|| {
+            let op = ObjectPath::try_from(p).map_err(|e| e.to_string())?;
+            ObjectPath::try_from(Value::from(op)).map(|x| x.as_str() == p).map_err(|e| e.to_string())
+        });
+        if r != Ok(Ok(true)) {
+            fails.push(BankFail { ty: "ObjectPath".into(), route: "From + TryFrom<Value>", shown: p.into(), detail: format!("{r:?}") });
+        }
+    }
+    for g in ["", "i", "a{sv}", "(ii)", "ii"] {
+        *evals += 1;
+        let r = vcommon::catch(|| {
+            let sg = Signature::try_from(g).map_err(|e| e.to_string())?;
+            let back = Signature::try_from(Value::from(sg.clone())).map_err(|e| e.to_string())?;
+            Ok::<bool, String>(back == sg && back.to_string() == sg.to_string())
+        });
+        if r != Ok(Ok(true)) {
+            fails.push(BankFail { ty: "Signature".into(), route: "From + TryFrom<Value>", shown: g.into(), detail: format!("{r:?}") });
+        }
+    }
+    n_types + 3
+}
+
+// ---------------------------------------------------------------------------------------------
+// main
+// ---------------------------------------------------------------------------------------------
+
+fn ord_i8(o: Ordering) -> i8 {
+    match o {
+        Ordering::Less => -1,
+        Ordering::Equal => 0,
+        Ordering::Greater => 1,
+    }
+}
+
+fn show(it: &Item<'_>) -> String {
+    let held = if it.fd_mode.is_empty() { String::new() } else { format!(" ({} fd)", it.fd_mode) };
+    if rv_eq(&it.rv, &it.held) {
+        format!("{}:{}{held}", it.sig, it.rv.show())
+    } else {
+        format!("{}:{} (built from {}){held}", it.sig, it.held.show(), it.rv.show())
+    }
+}
+
+pub fn main(args: &Args) -> i32 {
+    if let Some(p) = &args.replay {
+        return replay(p, args);
+    }
+    let report = Report::new("C08", args.tier, args.seed, "exploration");
+    run(args.tier, &report, None);
+    report.assume("Values are built from the harness tree through public constructors only (rv::to_value)");
+    report.assume("hash equality is observed with std's DefaultHasher (fixed keys)");
+    report.assume("when `==` is not reflexive for a value, copies are compared through the harness tree (floats bitwise, fds by inode) instead of `==`");
+    report.assume("only Ord::cmp is treated as 'the ordering'; partial_cmp/< on NaN is not part of the stated laws");
+    report.finish(
+        "all values of rv::all_types(2) + every basic-key dict over {y,d,s,v} + two-field structs over {y,d,s,g} + nested float containers (+ a fixed-stride subset of 3-node types in thorough); every ordered pair for ==/cmp/hash laws, every triple (over all values if N <= 800, else over the 700 values richest in floats/signatures) for transitivity; non-trivial = distinct values plus distinct bank conversions",
+        true,
+    )
+}
+
+/// Runs everything; with `only = Some(indices)` prints the observations for those values (replay).
+fn run(tier: Tier, report: &Report, only: Option<&[String]>) -> bool {
+    let fds = FdTable::new(2);
+    let mut capped = false;
+    let items = universe(tier, &fds, &mut capped, report);
+    let n = items.len();
+    if let Some(shown) = only {
+        // values are identified by their printed form, which is stable across tiers
+        let mut ix = vec![];
+        for s in shown {
+            match items.iter().position(|it| show(it) == *s) {
+                Some(i) => ix.push(i),
+                None => println!("  value {s} is not in the universe any more"),
+            }
+        }
+        return replay_values(&items, &ix, &fds);
+    }
+    report.set("values", json!(n));
+    report.set("values_with_nan", json!(items.iter().filter(|i| has_nan(&i.rv)).count()));
+    report.set("values_with_float", json!(items.iter().filter(|i| has_float(&i.rv)).count()));
+    report.set("distinct_signatures", json!(items.iter().map(|i| i.sig.clone()).collect::<std::collections::BTreeSet<_>>().len()));
+    if capped {
+        report.note("value lists of some container types were reduced to base-choice coverage by rv::values (cap 12 per type)");
+    }
+    for (i, it) in items.iter().enumerate() {
+        report.nontrivial(hash64(&(i, show(it))));
+        if [3usize, n / 5, n / 3, n / 2, 2 * n / 3, n - 1].contains(&i) {
+            report.sample(json!({"value": show(it), "value_signature": it.val.value_signature().to_string()}));
+        }
+    }
+
+    // ---- unary laws (sequential: cheap, and keeps the witness order stable)
+    let mut viol: Vec<Violation> = vec![];
+    let mut evals = 0u64;
+    for (i, it) in items.iter().enumerate() {
+        unary(i, it, &fds, &mut viol, &mut evals);
+    }
+    report.eval(evals);
+    report.outcome_n("unary-law-evaluations", evals);
+
+    // ---- pair matrices from the real ==, cmp, hash
+    let hashes: Vec<u64> = items.iter().map(|i| std_hash(&i.val)).collect();
+    let rows: Vec<std::sync::Mutex<(Vec<bool>, Vec<i8>, Option<String>)>> =
+        (0..n).map(|_| std::sync::Mutex::new((vec![], vec![], None))).collect();
+    vcommon::par_for(n, 1, |i| {
+        let a = &items[i].val;
+        let r = vcommon::catch(|| {
+            let mut e = Vec::with_capacity(n);
+            let mut c = Vec::with_capacity(n);
+            for it in items.iter() {
+                e.push(*a == it.val);
+                c.push(ord_i8(a.cmp(&it.val)));
+            }
+            (e, c)
+        });
+        let mut g = rows[i].lock().unwrap();
+        match r {
+            Ok((e, c)) => {
+                g.0 = e;
+                g.1 = c;
+            }
+            Err(m) => {
+                g.0 = vec![false; n];
+                g.1 = vec![0; n];
+                g.2 = Some(format!("{m} at {}", vcommon::last_panic_location()));
+            }
+        }
+    });
+    let rows: Vec<(Vec<bool>, Vec<i8>, Option<String>)> = rows.into_iter().map(|m| m.into_inner().unwrap()).collect();
+    let eq = |i: usize, j: usize| rows[i].0[j];
+    let cmp = |i: usize, j: usize| rows[i].1[j];
+    report.eval((n * n) as u64 * 4);
+
+    let pair_replay = |i: usize, j: usize| json!({"values": [i, j], "shown": [show(&items[i]), show(&items[j])]});
+    let mut counts: BTreeMap<&'static str, u64> = BTreeMap::new();
+    for i in 0..n {
+        if let Some(m) = &rows[i].2 {
+            viol.push(feats(Violation::new("no-panic", format!("==/cmp with {} as left operand panicked: {m}", show(&items[i])), json!({"values": [i], "shown": [show(&items[i])]})), &[&items[i]]));
+            continue;
+        }
+        for j in 0..n {
+            let (a, b) = (&items[i], &items[j]);
+            if eq(i, j) {
+                *counts.entry("pairs-equal").or_insert(0) += 1;
+            } else {
+                *counts.entry("pairs-unequal").or_insert(0) += 1;
+            }
+            if i < j && eq(i, j) != eq(j, i) {
+                viol.push(feats(
+                    Violation::new("eq-symmetric", format!("{} == {} is {} but the reverse is {}", show(a), show(b), eq(i, j), eq(j, i)), pair_replay(i, j)),
+                    &[a, b],
+                ));
+            }
+            if i < j && cmp(i, j) != -cmp(j, i) {
+                viol.push(feats(
+                    Violation::new("cmp-antisymmetric", format!("cmp({}, {}) = {} but cmp reversed = {}", show(a), show(b), cmp(i, j), cmp(j, i)), pair_replay(i, j)),
+                    &[a, b],
+                ));
+            }
+            if i <= j && (cmp(i, j) == 0) != eq(i, j) {
+                viol.push(
+                    feats(
+                        Violation::new(
+                            "cmp-consistent-eq",
+                            format!("cmp({}, {}) = {} while == is {}", show(a), show(b), ["Less", "Equal", "Greater"][(cmp(i, j) + 1) as usize], eq(i, j)),
+                            pair_replay(i, j),
+                        ),
+                        &[a, b],
+                    )
+                    .feat("cmp_says_equal", cmp(i, j) == 0),
+                );
+            }
+            if i <= j && eq(i, j) && hashes[i] != hashes[j] {
+                viol.push(feats(
+                    Violation::new("hash-consistent-eq", format!("{} == {} but their hashes differ", show(a), show(b)), pair_replay(i, j)),
+                    &[a, b],
+                ));
+            }
+        }
+    }
+    for (k, c) in &counts {
+        report.outcome_n(k, *c);
+    }
+
+    // ---- transitivity over the matrices
+    let tri: Vec<usize> = if n <= 800 {
+        (0..n).collect()
+    } else {
+        let mut pri: Vec<usize> = (0..n).collect();
+        pri.sort_by_key(|i| {
+            let r = &items[*i].rv;
+            (!(has_nan(r)), !(has_float(r) || has_sigval(r) || has_fd(r)), *i % 7, *i)
+        });
+        pri.truncate(700);
+        pri.sort();
+        report.cap(format!("transitivity is checked on 700 of the {n} values (all values with floats, signature values or fds first, the rest by fixed stride); pair laws cover all values"));
+        pri
+    };
+    let tn = tri.len();
+    let tri_viol: Vec<std::sync::Mutex<Vec<(usize, usize, usize, &'static str)>>> = (0..tn).map(|_| std::sync::Mutex::new(vec![])).collect();
+    vcommon::par_for(tn, 1, |x| {
+        let i = tri[x];
+        let mut local = vec![];
+        let (mut seen_eq, mut seen_le) = (false, false);
+        for &j in &tri {
+            let (eij, lij) = (eq(i, j), cmp(i, j) <= 0);
+            if !eij && !lij {
+                continue;
+            }
+            for &k in &tri {
+                if eij && eq(j, k) && !eq(i, k) && !seen_eq {
+                    local.push((i, j, k, "eq-transitive"));
+                    seen_eq = true;
+                }
+                if lij && cmp(j, k) <= 0 && cmp(i, k) > 0 && !seen_le {
+                    local.push((i, j, k, "cmp-transitive"));
+                    seen_le = true;
+                }
+            }
+        }
+        *tri_viol[x].lock().unwrap() = local;
+    });
+    report.eval((tn * tn * tn) as u64 * 2);
+    report.outcome_n("triples", (tn * tn * tn) as u64);
+    for m in tri_viol {
+        for (i, j, k, clause) in m.into_inner().unwrap() {
+            let (a, b, c) = (&items[i], &items[j], &items[k]);
+            let d = if clause == "eq-transitive" {
+                format!("{} == {} and {} == {} but {} != {}", show(a), show(b), show(b), show(c), show(a), show(c))
+            } else {
+                format!("{} <= {} and {} <= {} but cmp({}, {}) = Greater", show(a), show(b), show(b), show(c), show(a), show(c))
+            };
+            viol.push(feats(Violation::new(clause, d, json!({"values": [i, j, k], "shown": [show(a), show(b), show(c)]})), &[a, b, c]));
+        }
+    }
+
+    // ---- std-type bank
+    let mut bf = vec![];
+    let mut be = 0u64;
+    let n_types = bank(&mut bf, &mut be);
+    report.eval(be);
+    report.outcome_n("bank-conversions", be);
+    report.set("bank_types", json!(n_types));
+    for k in 0..be {
+        report.nontrivial(hash64(&("bank", k)));
+    }
+    for f in bf {
+        viol.push(
+            Violation::new("std-roundtrip", format!("{} {} [{}]: {}", f.ty, f.shown, f.route, f.detail), json!({"bank": f.ty, "value": f.shown}))
+                .feat("type", f.ty)
+                .feat("route", f.route),
+        );
+    }
+
+    let any = !viol.is_empty();
+    if std::env::var_os("C08_IDENTITIES").is_some() {
+        let mut ids: BTreeMap<String, (u64, String)> = BTreeMap::new();
+        for v in &viol {
+            let e = ids.entry(format!("{} {:?}", v.clause, v.features)).or_insert((0, v.detail.clone()));
+            e.0 += 1;
+        }
+        for (k, (n, d)) in ids {
+            eprintln!("{n:6} {k}\n         e.g. {d}");
+        }
+    }
+    for v in viol {
+        report.violation(v);
+    }
+    any
+}
+
+fn replay_values(items: &[Item<'_>], ix: &[usize], fds: &FdTable) -> bool {
+    let mut bad = false;
+    for &i in ix {
+        let Some(it) = items.get(i) else {
+            println!("  value #{i}: not in this tier's universe (replay with the tier the artefact came from)");
+            continue;
+        };
+        println!("  value #{i}: {}   value_signature = {}", show(it), it.val.value_signature());
+        let mut v = vec![];
+        let mut e = 0;
+        unary(i, it, fds, &mut v, &mut e);
+        for x in &v {
+            println!("    law failed: {} - {}", x.clause, x.detail);
+        }
+        bad |= !v.is_empty();
+    }
+    for &i in ix {
+        for &j in ix {
+            if let (Some(a), Some(b)) = (items.get(i), items.get(j)) {
+                let r = vcommon::catch(|| (a.val == b.val, a.val.cmp(&b.val), std_hash(&a.val) == std_hash(&b.val)));
+                println!("  #{i} vs #{j}: {}", match &r {
+                    Ok((e, c, h)) => format!("== {e}, cmp {c:?}, same hash {h}"),
+                    Err(m) => format!("panicked: {m}"),
+                });
+                if let Ok((e, c, h)) = r {
+                    bad |= (c == Ordering::Equal) != e || (e && !h);
+                } else {
+                    bad = true;
+                }
+            }
+        }
+    }
+    if ix.len() == 3 {
+        if let (Some(a), Some(b), Some(c)) = (items.get(ix[0]), items.get(ix[1]), items.get(ix[2])) {
+            let le = |x: &Item<'_>, y: &Item<'_>| x.val.cmp(&y.val) != Ordering::Greater;
+            if le(a, b) && le(b, c) && !le(a, c) {
+                println!("  a <= b, b <= c but a > c");
+                bad = true;
+            }
+            if a.val == b.val && b.val == c.val && a.val != c.val {
+                println!("  a == b, b == c but a != c");
+                bad = true;
+            }
+        }
+    }
+    bad
+}
+
+fn replay(path: &str, args: &Args) -> i32 {
+    let v = vcommon::load_replay(path);
+    println!("C08 replay: clause {} - {}", v["clause"].as_str().unwrap_or("?"), v["detail"].as_str().unwrap_or(""));
+    let bad = if let Some(sh) = v["replay"]["shown"].as_array() {
+        let shown: Vec<String> = sh.iter().filter_map(|x| x.as_str().map(|x| x.to_string())).collect();
+        let report = Report::new("C08", args.tier, args.seed, "exploration");
+        // the thorough universe is a superset of the quick one
+        run(Tier::Thorough, &report, Some(&shown))
+    } else if v["replay"]["bank"].is_string() {
+        let mut f = vec![];
+        let mut e = 0;
+        bank(&mut f, &mut e);
+        let ty = v["replay"]["bank"].as_str().unwrap_or("");
+        let mine: Vec<&BankFail> = f.iter().filter(|x| x.ty == ty).collect();
+        for x in &mine {
+            println!("  {} {} [{}]: {}", x.ty, x.shown, x.route, x.detail);
+        }
+        !mine.is_empty()
+    } else {
+        vcommon::machinery_failure("C08 replay: artefact needs replay.shown or replay.bank");
+    };
+    if bad {
+        println!("C08 replay: reproduced");
+        1
+    } else {
+        println!("C08 replay: not reproduced");
+        0
+    }
 }
